@@ -80,7 +80,7 @@ pub fn wopts(level: u32, exponent: u8) -> Vec<WOpt> {
         _ => vec![None, Some(1), Some(2), Some(3), Some(4), Some(5), Some(7), Some(9), Some(15), Some(16), Some(17), Some(18), Some(19), Some(30), Some(64)],
     };
     let mins: Vec<Option<usize>> = match level {
-        0 => vec![None, Some(3), Some(25)],
+        0 => vec![None, Some(3), Some(5), Some(25)],
         1 => vec![None, Some(1), Some(2), Some(5), Some(17), Some(25), Some(64)],
         _ => vec![None, Some(1), Some(2), Some(3), Some(5), Some(16), Some(17), Some(18), Some(25), Some(64), Some(300)],
     };
